@@ -4,6 +4,7 @@ import PestModel.Model.PrattDriver
 import PestModel.Model.PStateDriver
 import PestModel.Model.ViewsDriver
 import PestModel.Model.GrammarDriver
+import PestModel.Model.UnicodeDriver
 
 open PestModel
 
@@ -23,4 +24,5 @@ def main (args : List String) : IO UInt32 := do
   | ["prog"] => loop stdin stdout PStateDriver.runLine; return 0
   | ["views"] => loop stdin stdout ViewsDriver.runLine; return 0
   | ["grammar"] => loop stdin stdout GrammarDriver.runLine; return 0
+  | ["unicode"] => loop stdin stdout UnicodeDriver.runLine; return 0
   | _ => IO.eprintln "usage: pestmodel <mode>"; return 2
